@@ -284,6 +284,7 @@ def lc_cases(run, rng, k):
 
 def check(run):
     catoracle.fast_io()
+    catoracle.install_contracts()
     rng = run.rng(0)
     ntree = 5 if run.quick else 90
     for k in range(ntree):
@@ -292,6 +293,7 @@ def check(run):
             return
     for k in range(3 if run.quick else 30):
         lc_cases(run, rng, k)
+    catoracle.report_contracts(run)
     run.sample(dict(files='list_reversed', mask='none_in_one', cleaned=True, subsamples="{'A': True, 'pid': True}", fields=['N', 'id', 'x_com']))
     for kind in ('all', 'none'):
         if not run.counters.get('filter_mask_' + kind):
